@@ -1,7 +1,7 @@
 #!/usr/bin/env bash
 # Effectiveness check for one seeded property-breaking change (/verif/seeded/<name>/patch.diff):
 # the change is applied to a scratch copy of the contract tree (target/seedwork/repo, refreshed from
-# the clean worktree /tmp/replay_repo before every run, so /tmp/replay_repo itself always stays
+# the clean worktree named in Cargo.toml before every run, so that worktree itself always stays
 # clean), a copy of this crate is built against it (target/seedwork/crate, own target dir) and
 # `search --oracle <oracle>` is run over the given profiles.
 #
@@ -12,8 +12,8 @@
 set -u
 cd "$(dirname "$0")"
 export CARGO_NET_OFFLINE=true
-CLEAN=/tmp/replay_repo
-SEEDS=/verif/seeded
+CLEAN=$(sed -n 's/^ats-smart-contract = { path = "\(.*\)" }.*/\1/p' Cargo.toml)
+SEEDS="${SEEDS:-/verif/seeded}"
 W="$PWD/target/seedwork"
 ITERS="${ITERS:-20000}"
 SEED="${SEED:-1}"
@@ -25,7 +25,7 @@ rsync -a --delete --exclude .git --exclude target "$CLEAN/" "$W/repo/"
 if [ ! -d "$W/crate/src" ] || [ "${SNAPSHOT:-0}" = 1 ]; then
   rm -rf "$W/crate/src"; cp -r src "$W/crate/src"
   cp Cargo.lock "$W/crate/Cargo.lock"; cp .cargo/config.toml "$W/crate/.cargo/config.toml"
-  sed "s#path = \"/tmp/replay_repo\"#path = \"$W/repo\"#" Cargo.toml > "$W/crate/Cargo.toml"
+  sed "s#path = \"$CLEAN\"#path = \"$W/repo\"#" Cargo.toml > "$W/crate/Cargo.toml"
 fi
 patch="$SEEDS/$name/patch.diff"
 [ -f "$SEEDS/$name" ] && patch="$SEEDS/$name"        # e.g. harmless/H2_reorder_sends.diff
